@@ -215,3 +215,104 @@ Section Cow.
       exact CT.
   Qed.
 End Cow.
+
+(* ------------------------------------------------------------------ *)
+(** * Leaf attributes (scalar or scalar collection), flat receivers *)
+Definition leaf_scalar (sp : attr_spec) : Prop := scalar_ty (a_ty sp) = true /\ a_prepare sp = None.
+Definition leaf_attr (sp : attr_spec) : Prop := (exists fam, leaf_coll sp fam) \/ leaf_scalar sp.
+
+Section CowOps.
+  Variable ct : ctable.
+  Hypothesis Hflat : flat_table ct.
+  Hypothesis Hninv : no_inval_table ct.
+  Hypothesis Hres : no_reserved_names ct.
+  Notation Inv := (Inv ct).
+  Notation rec := (exec ct XFUEL).
+
+  Lemma scalar_mv_plain sp v :
+    leaf_scalar sp ->
+    mv_plain (mkmv VMissing v false
+                (match a_prepare sp with Some f => PAttr f | None => PNone end)
+                None (Some (ctor_of_ty (a_ty sp))) (Some (a_ty sp)) None [] false).
+  Proof.
+    intros (Sc & Hp). unfold mv_plain. simpl. rewrite Hp.
+    split; [exact I|]. split; auto. split; auto. split; auto.
+    exists (a_ty sp), (a_ty sp). unfold ctor_of_ty. destruct (scalar_nospec _ Sc) as [-> _].
+    split; auto. split; auto. destruct (a_ty sp); simpl in *; auto; discriminate.
+  Qed.
+
+  Lemma prepare_attr_value_scalar fuel sp inst v F :
+    leaf_scalar sp -> astable F ->
+    T (fun h => IF ct F h /\ loose h v) (prepare_attr_value ct (exec ct fuel) sp inst v None)
+      (fun r h => IF ct F h /\ loose h r) (IF ct F).
+  Proof.
+    intros Hl SF. pose proof Hl as (Sc & _).
+    assert (Ec : ty_is_collection (a_ty sp) = false) by (destruct (a_ty sp); simpl in *; auto; discriminate).
+    assert (B : T (fun h => IF ct F h /\ loose h v)
+                  (v' <- exec ct fuel (KMutateValue (mkmv VMissing v false
+                                (match a_prepare sp with Some f => PAttr f | None => PNone end)
+                                None (Some (ctor_of_ty (a_ty sp))) (Some (a_ty sp)) None [] false)) ;;
+                   if ty_is_collection (a_ty sp) then coll_prepare ct (exec ct fuel) sp inst v' else ret v')
+                  (fun r h => IF ct F h /\ loose h r) (IF ct F)).
+    { eapply T_bind with (Q := fun v' h => IF ct F h /\ loose h v').
+      - eapply T_conseq.
+        + apply (Hmv ct Hflat fuel _ (fun h => F h /\ loose h v)).
+          * apply astable_and; [apply SF|apply astable_loose].
+          * now apply scalar_mv_plain.
+        + intros h [[I Fh] L]. split; auto.
+        + intros r h [[Iv [Fh L]] R]. split; [split; auto|].
+          destruct R as [->|[->|R]]; [exact I|exact L|exact R].
+        + intros h [I [Fh _]]. split; auto.
+      - intros v'. rewrite Ec. apply T_ret. auto. }
+    unfold prepare_attr_value. destruct v; try exact B. apply T_ret. auto.
+  Qed.
+
+  Lemma prepare_attr_value_any fuel sp inst v F :
+    leaf_attr sp -> cstable F ->
+    T (fun h => IF ct F h /\ loose h v) (prepare_attr_value ct (exec ct fuel) sp inst v None)
+      (fun r h => IF ct F h /\ loose h r) (IF ct F).
+  Proof.
+    intros [[fam Hl]|Hl] SF.
+    - apply (prepare_attr_value_leaf ct Hflat (exec ct fuel) (Hmv ct Hflat fuel) fam sp inst v F Hl SF).
+    - apply prepare_attr_value_scalar; auto. apply SF.
+  Qed.
+
+  (* the receiver: an instance of a flat class with managed keys *)
+  Definition flat_recv (l : loc) (h : heap_t) (cl : cid) (d : list (nat * val)) (k : cls) : Prop :=
+    nth_error h l = Some (OInst cl d) /\ lookup_cls ct cl = Some k /\ flat_class k /\ keys_managed k d.
+
+  Lemma mutate_attr_cow_T l cl d k a v tc :
+    flat_class k -> keys_managed k d -> lookup_cls ct cl = Some k ->
+    T (fun h => Inv h /\ inst_at l cl d h /\ loose h v /\
+                (tc = false -> forall sp, lookup_attr k a = Some sp -> check_type FUEL ct h v (a_ty sp) = true))
+      (mutate_attr ct rec l a v false tc false false) (fun _ h => Inv h) Inv.
+  Proof.
+    intros Fc Km Hk s (I & N & L & Cv).
+    pose proof (mutate_attr_cow ct Hflat Hninv Hres rec l a v tc s cl d k I
+                  (FI_of_Inv ct (heap s) l cl d k I N Hk Fc Km) L Cv) as R.
+    destruct (mutate_attr ct rec l a v false tc false false s) as [[r|e] s']; exact R.
+  Qed.
+
+  (* obj.with_<a>(v) -- copy-on-write *)
+  Theorem with_cow l a hh s cl d k :
+    h_inplace hh = false -> h_kw hh = None ->
+    Inv (heap s) -> loose (heap s) (pos0 hh) -> flat_recv l (heap s) cl d k ->
+    (forall sp, lookup_attr k a = Some sp -> leaf_attr sp) ->
+    Inv (heap (snd (run_helper ct l (HWith a) hh s))).
+  Proof.
+    intros Hin Hkw I L (N & Hk & Fc & Km) Hla.
+    unfold run_helper. destruct (negb (h_if hh)); [exact I|]. rewrite Hin, Hkw.
+    unfold bind at 1. rewrite (spec_for_run ct l a s cl d k N Hk).
+    destruct (lookup_attr k a) as [sp|] eqn:Ea; [|exact I]. cbn [snd].
+    pose proof (lookup_attr_name k a sp Ea) as Hn.
+    unfold with_attr. rewrite Hn.
+    eapply (T_run (fun h => IF ct (inst_at l cl d) h /\ loose h (pos0 hh)) _ (fun _ h => Inv h) Inv Inv s);
+      [| split; [split; auto|auto] | auto | auto].
+    eapply T_bind with (Q := fun value h => IF ct (inst_at l cl d) h /\ loose h value).
+    - eapply T_conseq;
+        [apply (prepare_attr_value_any XFUEL sp l (pos0 hh) (inst_at l cl d) (Hla sp eq_refl) (cstable_inst_at l cl d))
+        | auto | auto | intros h [I1 _]; exact I1].
+    - intros value. eapply T_pre; [|apply (mutate_attr_cow_T l cl d k a value true Fc Km Hk)].
+      intros h [[I1 N1] L1]. split; auto. split; auto. split; auto. intros E; discriminate.
+  Qed.
+End CowOps.
